@@ -9,6 +9,8 @@ Streams
             and LAFEM::Transfer on refined meshes at the exact scalar Q.  The case line carries the configuration AND the
             ingredients the assembly loops see (dumped by the harness through the real evaluators); the Lean model
             recomputes every printed quantity from the ingredients; the oracle checks the property in Fractions.
+  certificates : the Lean driver evaluates the decidable hypotheses (nestedB, consB, intB, mapsB) of the exactness
+            theorems on the real ingredients of every fe case; they must hold for every nested family (intB for exact rules).
   feo     : oracle only: interpolated polynomials (real Interpolator), function equality at independent sample points,
             consistency of the coarse/fine cell mapping (physical points), T P = I, R = P^T, matrix-free = matrix.
 """
@@ -19,7 +21,12 @@ import random
 import time
 from fractions import Fraction
 
+import sys
+
 import vlib
+
+if hasattr(sys, "set_int_max_str_digits"):
+    sys.set_int_max_str_digits(0)       # exact rationals of distorted non-parametric elements have thousands of digits
 
 PROP = "C18"
 F = Fraction
@@ -41,10 +48,13 @@ def fmt_n(l):
 # tables about spaces and cubature rules (used for tagging only; the oracle does the judging)
 # ---------------------------------------------------------------------------------------------
 
-SPACES = {"quad": ["l1", "l2", "d0", "d1", "b2"], "tria": ["l1", "l2", "d0", "d1"],
-          "hexa": ["l1", "l2", "d0"], "tetra": ["l1", "l2", "d0"]}
+SPACES = {"quad": ["l1", "l2", "d0", "d1", "b2", "l3", "cr"], "tria": ["l1", "l2", "d0", "d1", "l3", "cr"],
+          "hexa": ["l1", "l2", "d0", "cr"], "tetra": ["l1", "l2", "d0", "cr"]}
+# Crouzeix-Raviart / Rannacher-Turek spaces are NOT nested under refinement: only the polynomials of degree <= 1 lie in
+# the coarse and in the fine space; for them P interp_c(u) = interp_f(u) still has to hold
+NESTED = {"l1": True, "l2": True, "l3": True, "b2": True, "d0": True, "d1": True, "cr": False}
 DIM = {"quad": 2, "tria": 2, "hexa": 3, "tetra": 3}
-DEG = {"l1": 1, "l2": 2, "b2": 2, "d0": 0, "d1": 1}
+DEG = {"l1": 1, "l2": 2, "b2": 2, "d0": 0, "d1": 1, "l3": 3, "cr": 1}
 HYPER = ("quad", "hexa")
 
 # name -> (degree per variable, rational nodes/weights, positive weights, points per dimension)
@@ -73,7 +83,7 @@ RULE_SX = {
         "auto-degree:2": (2, False, True, 4), "auto-degree:4": (4, False, False, 11), "refine:trapezoidal": (1, True, True, 10),
         "refine:hammer-stroud-degree-2": (2, False, True, 32)},
 }
-NLOC = {("tria", "l1"): 3, ("tria", "l2"): 6, ("tria", "d0"): 1, ("tria", "d1"): 3,
+NLOC = {("tria", "l3"): 10, ("tria", "cr"): 3, ("tetra", "cr"): 4, ("tria", "l1"): 3, ("tria", "l2"): 6, ("tria", "d0"): 1, ("tria", "d1"): 3,
         ("tetra", "l1"): 4, ("tetra", "l2"): 10, ("tetra", "d0"): 1}
 
 
@@ -84,6 +94,8 @@ def rule_info(shape, space, cub, distorted):
     T P = I needs the mass integrals to be integrated exactly (degree >= 2k, more on non-affine cells); rules with
     irrational nodes are stored as 53-bit rationals, so the identity then only holds up to 1e-9."""
     k = DEG[space]
+    if shape in HYPER and space == "cr":
+        k = 2       # rotated bilinear: x^2 - y^2 in the local space
     if shape in HYPER:
         deg, rat, pos, n1 = RULE_1D[cub]
         need = 2 * k + ((DIM[shape] - 1) if distorted else 0)
@@ -197,7 +209,9 @@ def gen_polys(rng, c):
         if c["affine"] else (not c["offsets"])
     if shape in HYPER and c["offsets"]:
         k = min(k, 1) if space != "d1" else 0
-    tensor = shape in HYPER and axis_par and space in ("l1", "l2", "b2")
+    if space == "cr":
+        k = 1
+    tensor = shape in HYPER and axis_par and space in ("l1", "l2", "b2", "l3")
     exps = []
     rng_e = range(k + 1)
     for a in rng_e:
@@ -309,17 +323,48 @@ CORPUS_CFG = [
 ]
 
 
+def family_cfgs(tier):
+    """deterministic: every (shape, element family) once, graded geometry, a sufficient rule, one mesh permuted"""
+    g2 = [F(1, 32), F(-1, 16), F(0), F(1, 16), F(-1, 32)]
+    g3 = [F(1, 16), F(-1, 8), F(0), F(1, 8), F(-1, 16), F(1, 32), F(0)]
+    rows = [("quad", "l1", "simpson", 1), ("quad", "l2", "newton-cotes-closed:5", 0), ("quad", "l3", "gauss-legendre:4", 0),
+            ("quad", "b2", "newton-cotes-closed:5", 0), ("quad", "d0", "barycentre", 1), ("quad", "d1", "simpson", 1),
+            ("quad", "cr", "simpson", 1),
+            ("tria", "l1", "lauffer-degree-2", 1), ("tria", "l2", "dunavant:5", 0), ("tria", "l3", "dunavant:6", 0),
+            ("tria", "d0", "barycentre", 1), ("tria", "d1", "lauffer-degree-2", 1), ("tria", "cr", "dunavant:4", 1),
+            ("hexa", "l1", "simpson", 0), ("hexa", "d0", "barycentre", 0), ("hexa", "cr", "simpson", 0),
+            ("tetra", "l1", "hammer-stroud-degree-2", 0), ("tetra", "d0", "barycentre", 0)]
+    if tier == "thorough":
+        rows += [("hexa", "l2", "simpson", 0), ("tetra", "l2", "hammer-stroud-degree-5", 0),
+                 ("tetra", "cr", "hammer-stroud-degree-2", 0)]
+    out = []
+    for k, (shape, space, cub, level) in enumerate(rows):
+        out.append(dict(shape=shape, space=space, cub=cub, level=level, perm_c=[0, 1, 4][k % 3], perm_f=[3, 0, 2][k % 3],
+                        affine=[], offsets=(g2 if DIM[shape] == 2 else g3)))
+    return out
+
+
 def perm_state_cfgs():
     """deterministic: every permutation strategy x every permutation state (none/none, coarse only, fine only, both)
-    on three small base configurations; each `fe` case runs the matrix AND the matrix-free path"""
-    bases = [dict(shape="tria", space="l1", cub="lauffer-degree-2", level=1, affine=[], offsets=[]),
+    on four small graded base configurations; each `fe` case runs the matrix AND the matrix-free path"""
+    # all bases are GRADED (non-congruent cells): a lookup that mixes permuted and unpermuted cell indices is invisible
+    # on meshes of congruent cells
+    bases = [dict(shape="tria", space="l1", cub="lauffer-degree-2", level=1, affine=[],
+                  offsets=[F(1, 32), F(-1, 16), F(0), F(1, 16), F(-1, 32)]),
              dict(shape="quad", space="l2", cub="simpson", level=1, affine=[], offsets=[F(1, 32), F(-1, 32), F(0)]),
-             dict(shape="tetra", space="l1", cub="hammer-stroud-degree-2", level=0, affine=[], offsets=[])]
+             dict(shape="tetra", space="l1", cub="hammer-stroud-degree-2", level=0, affine=[],
+                  offsets=[F(1, 16), F(-1, 8), F(0), F(1, 8), F(-1, 16), F(1, 32), F(0)]),
+             # non-parametric element: also the *prolongation* depends on the geometry of the coarse cell, so a coarse
+             # evaluator prepared for the wrong (permuted/unpermuted) cell index is visible in P, not only in T
+             dict(shape="quad", space="cr", cub="simpson", level=1, affine=[],
+                  offsets=[F(1, 32), F(-1, 16), F(0), F(1, 16), F(-1, 32)])]
     out = []
     for b in bases:
         states = [(0, 0)]
         for st in range(1, 8):
-            states += [(st, 0), (0, st), (st, st), (st, st % 7 + 1)]
+            states += [(st, 0), (0, st), (st, st)]
+            if b["space"] == "cr":
+                states.append((st, st % 7 + 1))
         for pc, pf in states:
             c = dict(b)
             c["perm_c"], c["perm_f"] = pc, pf
@@ -589,6 +634,21 @@ def _oracle(case, out):
         if o.qlist() != matvec(t, y):
             return "Transfer::trunc is not T y"
         return None
+    if op == "cert":
+        # certificates computed by the Lean driver on the real ingredients: hypotheses of C18.prolongation_exact_certified
+        # (NEST, MAPS) and C18.truncation_prolongation_identity (CONS, INT, MAPS)
+        cfg = c.config()
+        suff, exact = rule_info(cfg["shape"], cfg["space"], cfg["cub"], bool(cfg["offsets"]))
+        if not out.startswith("CERT "):
+            return None if (not suff and out in ("ABORT", "EXC")) else "no certificates: " + out[:60]
+        nest, cons, integ, maps = [int(v) for v in out.split()[1:5]]
+        if NESTED[cfg["space"]]:
+            if not (nest and cons and maps):
+                return "hypotheses of the exactness theorems fail on a nested element family: NEST=%d CONS=%d MAPS=%d" % (
+                    nest, cons, maps)
+            if exact == "exact" and not integ:
+                return "the refined rule does not reproduce the coarse mass matrix although the rule is exact (INT=0)"
+        return None
     if op == "gforbid":
         return None if out.startswith("ABORT") else "a ghost-only member / prol_cancel did not assert: " + out[:60]
     if op == "gxfer":
@@ -605,6 +665,9 @@ def _oracle(case, out):
     if op in ("fe", "feo"):
         cfg = c.config()
         suff, exact = rule_info(cfg["shape"], cfg["space"], cfg["cub"], bool(cfg["offsets"]))
+        nested = NESTED[cfg["space"]]
+        if not nested:
+            exact = None
         if is_abnormal(out):
             if suff or not (out.startswith("ABORT") or out.startswith("EXC")):
                 return "grid transfer with a sufficient cubature rule ended with " + out
@@ -643,7 +706,7 @@ def _oracle(case, out):
                 return "direct prolongation is not the weight-normalised raw prolongation"
             if td != [[v / wt[i] for v in row] for i, row in enumerate(traw)]:
                 return "direct truncation is not the weight-normalised raw truncation"
-            e = same_function(pd, nf, nc, cells, [x] + rand_vectors(case, nc), "assembly points")
+            e = same_function(pd, nf, nc, cells, [x] + rand_vectors(case, nc), "assembly points") if nested else None
             if e:
                 return e
             if r != transpose(pd, nf, nc):
@@ -698,8 +761,11 @@ def _oracle(case, out):
             ic, jf, pf = o.qlist(), o.qlist(), o.qlist()
             if pf != matvec(pd, ic):
                 return "Transfer::prol differs from P x"
-            if pf != jf:
-                bad = [i for i in range(len(jf)) if pf[i] != jf[i]]
+            # the node functionals of the face-mean elements integrate with Gauss rules whose nodes are 53-bit rationals:
+            # their dof values are only accurate to rounding level, everything else is exact
+            tol = F(0) if nested else F(1, 10 ** 9)
+            if any(abs(a - b) > tol for a, b in zip(pf, jf)) or len(pf) != len(jf):
+                bad = [i for i in range(len(jf)) if abs(pf[i] - jf[i]) > tol]
                 return "P interp_c(u) != interp_f(u) for coarse-space polynomial %d at fine dofs %s" % (k, bad[:6])
         o.expect("S")
         dim = o.nat()
@@ -716,7 +782,7 @@ def _oracle(case, out):
                             [float(v) for v in xf], [float(v) for v in xc])
         if len(seen_f) != sum(len(ch) for _, _, ch in cells):
             return "coarse-fine cell mapping visits a fine cell twice"
-        e = same_function(pd, nf, nc, cells, [x] + rand_vectors(case, nc), "sample points")
+        e = same_function(pd, nf, nc, cells, [x] + rand_vectors(case, nc), "sample points") if nested else None
         if e:
             return e
         return None
@@ -734,7 +800,7 @@ def nontrivial(case):
         return len(case.split()) > 24
     if t[0] == "gforbid":
         return True
-    if t[0] in ("fe", "feo"):
+    if t[0] in ("fe", "feo", "cert"):
         return not (t[2] == "d0" and t[4] == "0")
     return False
 
@@ -745,7 +811,7 @@ def describe(case):
     if t[0] == "inv":
         keys.append("inv-n:" + t[1])
         keys.append("inv-kind:" + INV_KIND.get(case, "corpus"))
-    if t[0] in ("fe", "feo"):
+    if t[0] in ("fe", "feo", "cert"):
         keys += ["shape:" + t[1], "space:%s/%s" % (t[1], t[2]), "cub:" + t[3], "level:" + t[4],
                  "perm:%s" % ("none" if t[5] == "0" and t[6] == "0" else "coarse" if t[6] == "0" else "fine" if t[5] == "0" else "both"),
                  "geometry:" + ("unit" if t[7] == "0" and t[8] == "0" else
@@ -804,9 +870,12 @@ def main(argv):
         case = json.load(open(args.replay))["input"]
         alg = [case] if case.split()[0] in ("inv", "xfer", "gxfer", "gforbid") else []
         fe = [case] if case.startswith("fe ") else []
+        if case.startswith("cert "):
+            return vlib.run_pipeline(PROP, args.tier, args.seed, lean, [vlib.Stream(
+                "certificates", [case], vlib.driver_cmd(PROP), None, oracle=oracle, canon=canon)], t0)
         feo = [case] if case.startswith("feo ") else []
     else:
-        n_alg, n_fe = (1500, 50) if args.tier == "quick" else (20000, 350)
+        n_alg, n_fe = (1500, 20) if args.tier == "quick" else (20000, 250)
         alg = list(CORPUS)
         for _ in range(n_alg):
             k = rng.random()
@@ -818,7 +887,7 @@ def main(argv):
                 alg.append(gen_xfer(rng))
             else:
                 alg.append(gen_gxfer(rng))
-        cfgs = list(CORPUS_CFG) + perm_state_cfgs() + [gen_config(rng, args.tier) for _ in range(n_fe)]
+        cfgs = list(CORPUS_CFG) + perm_state_cfgs() + family_cfgs(args.tier) + [gen_config(rng, args.tier) for _ in range(n_fe)]
         fe, feo, skipped = build_fe_cases(rng, binary, cfgs)
     streams = []
     if alg:
@@ -826,6 +895,10 @@ def main(argv):
                                    canon=canon, describe=describe, signature=signature, env=env))
     if fe:
         streams.append(vlib.Stream("fe", fe, [binary], vlib.driver_cmd(PROP), oracle=oracle, nontrivial=nontrivial,
+                                   canon=canon, describe=describe, signature=signature, env=env))
+    if fe and not args.replay:
+        cert = ["cert" + c[2:] for c in fe]
+        streams.append(vlib.Stream("certificates", cert, vlib.driver_cmd(PROP), None, oracle=oracle, nontrivial=nontrivial,
                                    canon=canon, describe=describe, signature=signature, env=env))
     if feo:
         streams.append(vlib.Stream("fe-oracle", feo, [binary], None, oracle=oracle, nontrivial=nontrivial,
